@@ -415,7 +415,10 @@ def check_scenario(drv, pristine, scen, acc, second=None):
         nsusp = drv.n_suspensions(call, obj, falsy) if CALLS[call][0] else 0
         return t, o, nsusp
     base_trace, base_outcome, nsusp = core.fresh_ctx_run(discover)
-    plans = [("cross", i, kind) for i in range(len(base_trace)) for kind in KINDS]
+    # (in the sequences of two faulted calls the first call is faulted with three kinds only: the other Exception subclasses
+    #  take the very same paths through the library unless a handler names them, which the single-fault enumeration covers)
+    kinds = KINDS if second is None else ["exc", "base", "te"]
+    plans = [("cross", i, kind) for i in range(len(base_trace)) for kind in kinds]
     if CALLS[call][0]:
         plans += [("cross", i, "cancel") for i in range(len(base_trace))]
         plans += [("susp", k, act) for k in range(nsusp) for act in ("throw_exc", "throw_cancel", "close")]
@@ -629,10 +632,10 @@ def run(tier, t0):
     sc = scenarios(tier)
     items = list(sc) + ["body_differential", "library_endings"]
     if tier == "thorough":
-        # sequences of two faulted calls: the second one faulted at each of its first 8 crossings
+        # sequences of two faulted calls: the second one faulted at each of its first 6 crossings
         for s in sc:
             for s2 in sc:
-                for idx in range(0, 8):
+                for idx in range(0, 6):
                     items.append((s, (s2[0], s2[1], idx, "base" if idx % 2 == 0 else "exc")))
     tot = core.merge(core.pmap(work, core.rotate(items)))
     return core.finish(
@@ -644,7 +647,7 @@ def run(tier, t0):
              "at every suspension of a hand-driven coroutine){}; after each: probe calls of every callable (all true + each "
              "condition falsy) in the same context, compared with the pristine-state observations; the surfaced exception must be "
              "or chain the injected one; non-trivial = every case".format(
-                 "; plus all pairs (first faulted call ; second call faulted at one of its first 8 crossings, BaseException and Exception alternating) before the probes" if tier == "thorough" else ""),
+                 "; plus all pairs (first faulted call ; second call faulted at one of its first 6 crossings, BaseException and Exception alternating) before the probes" if tier == "thorough" else ""),
         assumptions=["faults are injected at entries into user code and at suspension points, not between arbitrary bytecodes",
                      "a failing value __repr__ raising an Exception may be absorbed by reprlib (then the violation must still be reported)"],
         bounds={"scenarios": len(sc), "items": len(items), "fault_sequence_length": 1 if tier == "quick" else 2},
